@@ -73,6 +73,12 @@ class Gen:
                 live = self.body(scope, depth + 1, self.r.randrange(1, 3), allow_defs=False)
                 dead = self.body(scope, depth + 1, self.r.randrange(1, 3), allow_defs=False)
                 out.append({"k": "ifelse", "c": c, "then": live if c else dead, "else": dead if c else live})
+            elif allow_defs and scope and not self.two and x < 0.605 and any(d[0] == () for d in self.defs):
+                # a `.test` block that defines a label named like an outer symbol, then a use of that name
+                name = self.r.choice([d[1] for d in self.defs if d[0] == ()])
+                self.sid += 1
+                out.append({"k": "test", "name": "t%d" % self.sid, "body": [{"k": "label", "name": name, "oid": self.new_oid(), "hasBody": False, "body": []}]})
+                out.append({"k": "use", "path": [], "oids": [], "scope": scope, "dead": True, "force": [name]})
             elif allow_defs and scope and x < 0.615:
                 out.append({"k": "blk", "oid": self.new_oid()})          # `bne -`: a use of the automatic block-start symbol
             elif x < 0.64 and depth < self.maxdepth:
@@ -81,7 +87,8 @@ class Gen:
                 self.sid += 1
                 sid = "$l%d" % self.sid
                 out.append({"k": "loop", "path": [], "oids": [], "scope": scope, "want": "const", "sid": sid,
-                            "body": self.body(scope + (sid,), depth + 1, self.r.randrange(1, 3), allow_defs=False)})
+                            "body": self.body(scope + (sid,), depth + 1, self.r.randrange(1, 3), allow_defs=False)
+                                    + [{"k": "use", "path": ["index"], "oids": [self.new_oid()], "interp": False}]})
             elif x < 0.72 and self.macros:
                 m = self.r.choice(self.macros)
                 self.called.add(m["name"])
@@ -112,10 +119,12 @@ class Gen:
                     st["path"] = self.some_path(scope, extra_defs)
                 st["oids"] = [self.new_oid() for p in st["path"]]
                 self.fill_uses(st["body"], extra_defs)
+            elif st["k"] == "use" and "scope" not in st:
+                continue                                   # already complete (`.word index`)
             elif st["k"] == "use":
                 scope = st.pop("scope")
                 dead = st.pop("dead", True)
-                st["path"] = self.some_path(scope, extra_defs)
+                st["path"] = st.pop("force", None) or self.some_path(scope, extra_defs)
                 st["oids"] = [self.new_oid() for p in st["path"]]          # `super` segments are occurrences too
                 st["interp"] = self.r.random() < 0.2
                 if not dead and len(st["path"]) == 1 and (scope, st["path"][0]) in self.consts and self.r.random() < 0.4:
@@ -191,7 +200,12 @@ class Gen:
             inc_defs = [d for d in inc_defs if d[1] not in taken]
             self.sid += 1
             imp = {"k": "import", "file": "inc.asm", "sid": "$imp%d" % self.sid, "mode": "all", "name": "", "oid": 0, "items": [], "block": []}
-            mode = self.r.choice(["all", "all", "ns", "sel", "sel"])
+            mode = self.r.choice(["all", "all", "ns", "ns2", "sel", "sel"])
+            imp2 = None
+            if mode == "ns2":                              # the same file imported twice, under two names
+                mode = "ns"
+                self.sid += 1
+                imp2 = {"k": "import", "file": "inc.asm", "sid": "$imp%d" % self.sid, "mode": "ns", "name": "k", "oid": self.new_oid(), "items": [], "block": []}
             tops = [st for st in inc if st["k"] in ("label", "const")]
             if mode in ("ns", "sel"):
                 # Inside a block of an imported file the real assembler continues an outward search in the IMPORTING scope (the
@@ -202,7 +216,7 @@ class Gen:
                         st["hasBody"], st["body"] = False, []
             if mode == "ns" and tops:
                 imp.update(mode="ns", name="m", oid=self.new_oid())
-                inc_defs = [(("m",), st["name"]) for st in tops]
+                inc_defs = [(("m",), st["name"]) for st in tops] + ([(("k",), st["name"]) for st in tops] if imp2 else [])
             elif mode == "sel" and tops:
                 imp["mode"] = "sel"
                 inc_defs = []
@@ -213,7 +227,7 @@ class Gen:
                 if self.r.random() < 0.5:
                     imp["block"] = [{"k": "const", "name": "P", "oid": self.new_oid()}]
                     inc.append({"k": "use", "path": ["P"], "oids": [self.new_oid()]})
-            main = [imp] + main
+            main = [imp] + ([imp2] if imp2 and imp["mode"] == "ns" else []) + main
         self.fill_uses(main, inc_defs)
         if self.two:
             # one more use of an imported symbol at the SAME line and columns in both files
@@ -273,6 +287,11 @@ def render(prog, fname, occ, indent=0, lines=None):
         elif k == "macrocall":
             occ[st["oid"]] = {"f": fname, "line": len(lines), "col": len(pad), "len": len(st["name"]), "name": st["name"], "def": False}
             lines.append(pad + st["name"] + "(" + ", ".join(str(a) for a in st["args"]) + ")")
+        elif k == "test":
+            lines.append(pad + '.test "%s" {' % st["name"])
+            render(st["body"], fname, occ, indent + 1, lines)
+            lines.append(pad + "  brk")
+            lines.append(pad + "}")
         elif k == "blk":
             occ[st["oid"]] = {"f": fname, "line": len(lines), "col": len(pad) + 4, "len": 1, "name": "-", "def": False}
             lines.append(pad + "bne -")
